@@ -100,7 +100,12 @@ def gen(r, atoms=None, integer=False, max_atoms=2, front=None):
 
 def build(d, spell=0):
     """description -> (model, x).  `spell` selects among equivalent spellings."""
-    m = ro.Model() if d['front'] == 'ro' else dro.Model(1)
+    if d['front'] in ('lp', 'socp'):
+        # the stand-alone layers (formula classes LinProg / SOCProg)
+        from rsome import lp as rlp, socp as rsocp
+        m = rlp.Model() if d['front'] == 'lp' else rsocp.Model()
+    else:
+        m = ro.Model() if d['front'] == 'ro' else dro.Model(1)
     n = d['n']
     x = m.dvar(n, vtype=d['vtype'])
     for kind, j, v in d['bounds']:
